@@ -34,7 +34,7 @@ Inductive value := VBool (b : bool) | VInt (k : ikind) (z : Z).
 
 Inductive fault :=
   (* value-dependent *)
-  | FDivZero | FModZero | FOverflow | FForStepZero
+  | FDivZero | FModZero | FOverflow | FForStepZero | FIndexOOB
   (* static-class: the checker should have excluded these *)
   | FTypeMismatch | FCondNotBool | FCaseSelector | FControlFlow | FUndefinedVar
   (* a Rust arithmetic panic (debug assertions) *)
@@ -54,7 +54,11 @@ Record opts := { o_neg_checked : bool; o_for_checked : bool; o_coerce_write : bo
 Inductive unop := UNeg | UNot.
 Inductive binop := BAdd | BSub | BMul | BDiv | BMod | BEq | BNe | BLt | BLe | BGt | BGe | BAnd | BOr | BXor.
 (* [ELit u v]: u = the source literal was untyped (lowered to DINT); the evaluator ignores u *)
-Inductive expr := ELit (u : bool) (v : value) | EVar (x : nat) | EUn (op : unop) (e : expr) | EBin (op : binop) (l r : expr).
+(* [EIdx base lo n ki i]: element i of a one-dimensional integer array ARRAY[lo .. lo+n-1] whose elements occupy the
+   store slots base .. base+n-1 (the code keeps them in one Value::Array; the flat layout is the model's);
+   ki = the declared kind of the index expression (an annotation: the interpreter ignores it) *)
+Inductive expr := ELit (u : bool) (v : value) | EVar (x : nat) | EUn (op : unop) (e : expr) | EBin (op : binop) (l r : expr)
+                | EIdx (base : nat) (lo : Z) (n : nat) (ki : ikind) (i : expr).
 
 Definition i64max : Z := 2 ^ 63 - 1.
 (* numeric.rs *)
@@ -152,7 +156,19 @@ Definition write (o : opts) (s : store) (x : nat) (v : value) : res store :=
   v' <- (if o_coerce_write o then coerce_like t v else Ok v) ;;
   Ok (upd s x v').
 
-(* expr/eval.rs, with the short-circuit AND / OR *)
+(* stmt.rs int_value / expr/access.rs index_to_i64: `as i64` wraps a ULINT above i64::MAX *)
+Definition int_value (v : value) : res Z :=
+  match v with
+  | VInt KULInt z => Ok (if i64max <? z then z - 2 ^ 64 else z)
+  | VInt _ z => Ok z
+  | VBool _ => Fault FTypeMismatch
+  end.
+(* expr/access.rs array_offset for one dimension: IndexOutOfBounds outside lo .. lo+n-1 *)
+Definition idx_slot (base : nat) (lo : Z) (n : nat) (iv : value) : res nat :=
+  z <- int_value iv ;;
+  if (z <? lo) || (lo + Z.of_nat n - 1 <? z) then Fault FIndexOOB else Ok (base + Z.to_nat (z - lo))%nat.
+
+(* expr/eval.rs, with the short-circuit AND / OR; Expr::Index = eval_indices + read_indices *)
 Fixpoint eval (o : opts) (s : store) (e : expr) : res value :=
   match e with
   | ELit _ v => Ok v
@@ -165,6 +181,7 @@ Fixpoint eval (o : opts) (s : store) (e : expr) : res value :=
       lv <- eval o s l ;;
       match lv with VBool true => Ok (VBool true) | _ => rv <- eval o s r ;; apply_binary BOr lv rv end
   | EBin op l r => lv <- eval o s l ;; rv <- eval o s r ;; apply_binary op lv rv
+  | EIdx b lo n _ i => iv <- eval o s i ;; x <- idx_slot b lo n iv ;; rd s x
   end.
 Definition eval_bool (o : opts) (s : store) (e : expr) : res bool :=
   v <- eval o s e ;; match v with VBool b => Ok b | _ => Fault FCondNotBool end.
@@ -172,6 +189,7 @@ Definition eval_bool (o : opts) (s : store) (e : expr) : res bool :=
 Inductive label := LSingle (v : Z) | LRange (lo hi : Z).
 Inductive stmt :=
   | SAssign (x : nat) (e : expr)
+  | SAssignIdx (base : nat) (lo : Z) (n : nat) (ki : ikind) (i : expr) (e : expr)   (* a[i] := e *)
   | SIf (c : expr) (t : list stmt) (elifs : list (expr * list stmt)) (el : list stmt)
   | SCase (sel : expr) (branches : list (list label * list stmt)) (el : list stmt)
   | SFor (x : nat) (start stop step : expr) (body : list stmt)
@@ -184,13 +202,6 @@ Inductive signal := GNormal | GExit | GContinue | GReturn.
 Definition label_matches (l : label) (z : Z) : bool :=
   match l with LSingle v => v =? z | LRange lo hi => (lo <=? z) && (z <=? hi) end.
 
-(* stmt.rs int_value: `as i64` wraps a ULINT above i64::MAX *)
-Definition int_value (v : value) : res Z :=
-  match v with
-  | VInt KULInt z => Ok (if i64max <? z then z - 2 ^ 64 else z)
-  | VInt _ z => Ok z
-  | VBool _ => Fault FTypeMismatch
-  end.
 (* stmt.rs coerce_loop_value *)
 Definition coerce_loop (template : value) (z : Z) : res value :=
   match template with
@@ -278,6 +289,10 @@ Section Exec.
   Definition step (n : nat) (depth : nat) (s : store) (st : stmt) : res (store * signal) :=
     match st with
     | SAssign x e => v <- ev s e ;; s' <- write o s x v ;; Ok (s', GNormal)
+    (* Stmt::Assign evaluates the value first; write_lvalue then evaluates the index, checks the bounds and stores the
+       value in the element as it is (write_indices) *)
+    | SAssignIdx b lo n _ i e =>
+        v <- ev s e ;; iv <- ev s i ;; x <- idx_slot b lo n iv ;; s' <- write o s x v ;; Ok (s', GNormal)
     | SIf c t elifs el =>
         b <- ev_bool s c ;; if b then run_block depth s t else run_elifs depth s elifs el
     | SCase sel branches el =>
